@@ -635,15 +635,16 @@ def eval_c18(ctx, tr, finished):
             ctx.witness('expect matched')
         if e.outcome == 'match':
             ctx.check('C18.never_nonmatching', e.ev == want, by=b.by, want=want, got=e.ev)
-    if any(r.kind == 'EXPB' for r in tr.recs) and finished:
+    if any(r.kind == 'EXPB' for r in tr.recs):
         # the temporary subscription does not affect the other handlers: every accepted event's own handlers still run exactly once
         for (bn, lab) in _uniq(tr.accepted()):
             if lab in excused_events(tr):
                 continue
             for name in ctx.expected(bn, lab):
                 ctx.check('C18.others_unaffected', tr.count(bn, lab, name) == 1, bus=bn, ev=lab, handler=name, n=tr.count(bn, lab, name))
-        left = [getattr(h, '__name__', '') for bb in ctx.buses.values() for hs in bb.handlers.values() for h in hs if 'expect(' in getattr(h, '__name__', '')]
-        ctx.check('C18.unsubscribed', not left, left=left)
+        if finished:
+            left = [getattr(h, '__name__', '') for bb in ctx.buses.values() for hs in bb.handlers.values() for h in hs if 'expect(' in getattr(h, '__name__', '')]
+            ctx.check('C18.unsubscribed', not left, left=left)
 
 
 def evaluate(ctx, finished):
